@@ -21,7 +21,7 @@ func (flavor) Profile() lc.Profile { return lc.Profile{Validate: 3, Stop: 5, Log
 func (flavor) Impl(ops []lc.Op, obs []lc.StepObs) string {
 	parts := make([]string, len(obs))
 	for i, o := range obs {
-		parts[i] = o.Res + "|" + o.Raw + "|" + lc.ShowSocks(o)
+		parts[i] = o.Res + "|" + o.Raw + "|" + lc.ShowSocks(o) + "|" + lc.ShowPool(o.MPool)
 	}
 	return strings.Join(parts, " ")
 }
@@ -64,6 +64,30 @@ func (flavor) Oracle(ops []lc.Op, obs []lc.StepObs) []core.Failure {
 		for a, t := range lc.F2Leak(attempted, o) {
 			leaked[a] = append(leaked[a], t...)
 		}
+		// nothing of a configuration that is not running may be left: every module that was
+		// provisioned for it has been cleaned up, its context is cancelled, and the usage-pool
+		// references (guest pool, reverse proxy hosts) are exactly those of the running one
+		if left := lc.Uncleaned(obs[:i+1], runningCid(ops[:i+1], obs[:i+1])); len(left) > 0 {
+			cls := "modules-of-ended-config-not-cleaned-up"
+			if !accepted && op.Kind != 'V' && op.Kind != 'S' {
+				cls = "modules-of-rejected-config-not-cleaned-up"
+			}
+			fails = append(fails, core.Failure{Class: cls,
+				What: fmt.Sprintf("op %d (%s → %s): module instance(s) %v were provisioned for a configuration that is not running and never got Cleanup()", i, op, o.Res, left)})
+		}
+		if len(o.Alive) > 0 {
+			fails = append(fails, core.Failure{Class: "context-of-ended-config-not-cancelled",
+				What: fmt.Sprintf("op %d (%s → %s): the context of configuration(s) %v, which are not running, was never cancelled", i, op, o.Res, o.Alive)})
+		}
+		wantPool := lc.WantPool(running)
+		if o.MPool != wantPool {
+			cls := "pool-references-left-after-rejected-attempt"
+			if accepted {
+				cls = "pool-references-differ-after-accepted-attempt"
+			}
+			fails = append(fails, core.Failure{Class: cls,
+				What: fmt.Sprintf("op %d (%s → %s): usage-pool references %s, the running configuration holds %s", i, op, o.Res, lc.ShowPool(o.MPool), lc.ShowPool(wantPool))})
+		}
 		want := lc.WantSocks(running)
 		if lc.SocksEqual(o, want) {
 			continue
@@ -88,4 +112,20 @@ func (flavor) Oracle(ops []lc.Op, obs []lc.StepObs) []core.Failure {
 			What: fmt.Sprintf("op %d (%s → %s): sockets/answers %s, the running configuration has %s", i, op, o.Res, lc.ShowSocks(o), lc.ShowWant(want))})
 	}
 	return fails
+}
+
+// runningCid: the context number of the configuration that runs after the last of these
+// operations (-1 if none), by the results the implementation reported.
+func runningCid(ops []lc.Op, obs []lc.StepObs) int {
+	cid := -1
+	for i, o := range obs {
+		switch {
+		case ops[i].Kind == 'S':
+			cid = -1
+		case ops[i].Kind == 'V' || ops[i].Kind == 'J':
+		case o.Res == "ok":
+			cid = i
+		}
+	}
+	return cid
 }
